@@ -132,7 +132,10 @@ def run(chk: Check):
     uctx = chk.func(REL, "Phrase.unwrap")
     uo = func_outcomes(chk, uctx)
     pk_ = f"{REL}::Phrase.__init__"
-    urets = [o for o in uo if o[0] == "return"]
+    from ..rulelib import memo_read_returns
+    _memo = memo_read_returns(uctx.func)
+    # (returns that hand back an entry of a per-instance memo keyed by every input are not derivations of their own)
+    urets = [o for o in uo if o[0] == "return" and not any(o[1] is m for m in _memo)]
     t = urets[0][3] if urets else S.unk("none")
     want = S.call("ext:hashlib.pbkdf2_hmac", [("sub", S.C(p2k), ("p", pk_, 2)), S.call(".encode", [("p", uctx.qual, 1)]), ("p", pk_, 5), ("p", pk_, 4),
                                                ("sub", S.C(cks), ("p", pk_, 3))])
